@@ -146,18 +146,37 @@ fn alloc_failure_part(i: &Input, n: u32, obs: &mut Obs) -> Result<(), Fail> {
         }
     }
     stream.extend_from_slice(&ref_frame(&[0x5a; 40]));
+    // (pre-sized: the measured closure must not allocate on its own account)
+    let mut got: Vec<(usize, Option<usize>)> = Vec::with_capacity(stream.len() + 1);
     let (ooms, fired) = crate::engine::alloc::with_alloc_failure(n, || {
         let mut ooms = 0u32;
-        for &b in &stream {
-            if let Err(DecodeErr::OutOfMemory) = dec.push_byte(b) {
-                ooms += 1;
+        for (k, &b) in stream.iter().enumerate() {
+            match dec.push_byte(b) {
+                Err(DecodeErr::OutOfMemory) => ooms += 1,
+                Ok(Some(m)) => got.push((k, Some(m.len()))),
+                Err(_) => got.push((k, None)),
+                Ok(None) => {}
             }
         }
         ooms
     });
     if fired {
         obs.class("alloc-failure:injected-into-decoder");
-        ensure!(ooms >= 1, "allocation-failure-not-reported", "the {}-th heap allocation inside Decoder<Vec<u8>>::push_byte failed, but no push returned Err(OutOfMemory); stream = {}", n, hex_short(&stream, 80));
+        if ooms == 0 {
+            // the library may recover from a refused allocation (e.g. retry with a smaller request); then nothing
+            // failed from the caller's point of view and the results must be those of an undisturbed run
+            let mut clean = Decoder::<Vec<u8>>::new();
+            let mut want: Vec<(usize, Option<usize>)> = Vec::new();
+            for (k, &b) in stream.iter().enumerate() {
+                match clean.push_byte(b) {
+                    Ok(Some(m)) => want.push((k, Some(m.len()))),
+                    Err(_) => want.push((k, None)),
+                    Ok(None) => {}
+                }
+            }
+            obs.class("alloc-failure:recovered-by-the-library");
+            ensure!(got == want, "allocation-failure-not-reported", "the {}-th heap allocation inside Decoder<Vec<u8>>::push_byte failed; no push returned Err(OutOfMemory) and the results differ from an undisturbed run: {:?} vs {:?}; stream = {}", n, got, want, hex_short(&stream, 80));
+        }
     } else {
         ensure!(ooms == 0, "spurious-out-of-memory", "Decoder<Vec<u8>> reported OutOfMemory {} times although no allocation failed", ooms);
     }
@@ -171,7 +190,9 @@ fn alloc_failure_part(i: &Input, n: u32, obs: &mut Obs) -> Result<(), Fail> {
     let (r, fired) = crate::engine::alloc::with_alloc_failure(n % 4, || encode::<Vec<u8>>(&big).map(|v| v.len()));
     if fired {
         obs.class("alloc-failure:injected-into-encoder");
-        ensure!(r.is_err(), "allocation-failure-not-reported", "an allocation inside encode::<Vec<u8>> failed but it returned Ok({:?})", r);
+        // an error value, or (the library recovered) the complete frame
+        let full = ref_frame(&big).len();
+        ensure!(r.is_err() || r == Ok(full), "allocation-failure-not-reported", "an allocation inside encode::<Vec<u8>> failed but it returned {:?} (the frame has {} bytes)", r, full);
     } else {
         ensure!(r.is_ok(), "spurious-out-of-memory", "encode::<Vec<u8>> failed although no allocation failed");
     }
@@ -294,6 +315,55 @@ pub fn eval_input(i: &Input, obs: &mut Obs) -> Result<(), Fail> {
     let _: Vec<u8> = encode_streaming(p).take(cap_steps + 1).collect();
     let mut grown: Vec<u8> = Vec::with_capacity(p.len() % 7);
     grown.extend(encode_streaming(p.to_vec()).take(cap_steps + 1));
+    // (v) stack use must not grow with the input: the workers of this harness run on 256 MiB stacks, which
+    // would hide one stack frame per consumed byte. Long streams / payloads are therefore run once more
+    // through every front-end on a thread with the stack std gives every spawned thread (2 MiB); a stack
+    // overflow there is an abort (crash guard), not an error value.
+    // (one long case in eight, chosen by the stream's hash, and every fixed long input of the enumerated part)
+    if (stream.len() >= 16_384 || p.len() >= 16_384) && (stream.len() >= 120_000 || crate::util::fnv64(&stream) % 8 == 0) {
+        obs.class("ordinary-stack-probe");
+        let r = crate::engine::guard::on_ordinary_stack(|| -> Result<(), String> {
+            let mut d = Decoder::<Vec<u8>>::new();
+            for &b in &stream {
+                let _ = d.push_byte(b);
+            }
+            let _ = d.finalize();
+            let mut d = Decoder::<sml_rs::util::ArrayBuf<16>>::new();
+            for &b in &stream {
+                let _ = d.push_byte(b);
+            }
+            let _ = d.reset();
+            let _ = drive::decode_fn(&stream);
+            drive::decode_streaming_fn::<VecK>(&stream, 1)?;
+            drive::decode_streaming_fn::<drive::Arr<16>>(&stream, 1)?;
+            drive::reader_slice::<VecK>(&stream, Poll::Next, 1)?;
+            drive::reader_slice_default(&stream, Poll::Read, 1)?;
+            drive::reader_iter::<drive::Arr<16>>(&stream, Poll::Read, 1)?;
+            drive::reader_io::<VecK>(drive::script_of(&stream), Poll::Next, 1)?;
+            let f = encode::<Vec<u8>>(p).map_err(|_| "encode::<Vec<u8>> failed".to_string())?;
+            let n = encode_streaming(p).take(2 * p.len() + 25).count();
+            if n != f.len() {
+                return Err(format!("encode_streaming yields {} bytes, encode {}", n, f.len()));
+            }
+            let mut d = Decoder::<Vec<u8>>::new();
+            for &b in &f {
+                let _ = d.push_byte(b);
+            }
+            drive::decode_streaming_fn::<VecK>(&f, 1)?;
+            Ok(())
+        });
+        match r {
+            Ok(Ok(())) => {}
+            Ok(Err(m)) => return Err(cap_fail(format!("on a 2 MiB stack: {m}"))),
+            Err(pi) if pi.in_harness() => return Err(Fail::new("harness-panic", format!("HARNESS BUG: {}", pi.describe()))),
+            Err(pi) => {
+                return Err(Fail::new(
+                    format!("panic@{}:{}", pi.file.rsplit('/').next().unwrap_or(""), pi.line),
+                    format!("library code panicked (2 MiB stack probe): {}", pi.describe()),
+                ))
+            }
+        }
+    }
     let long = stream.len() >= 256;
     if long {
         obs.class("stream:>=256");
@@ -398,12 +468,40 @@ impl Prop for C05 {
 
     fn exhaustive_desc(tier: Tier) -> String {
         let l = tier.pick(4, 5);
-        format!("every call history of length 1..={} over 15 operations (push of each of the 13 tokens of C02's alphabet, finalize(), reset()): {} histories, buffers Vec / ArrayBuf<0> / ArrayBuf<4> / ArrayBuf<64>", l, (1..=l).map(|k| 15u64.pow(k as u32)).sum::<u64>())
+        format!("7 fixed streams with one silent stretch of 120 000 bytes (noise / partial start sequences / one long frame) through every front-end on a 2 MiB stack; every call history of length 1..={} over 15 operations (push of each of the 13 tokens of C02's alphabet, finalize(), reset()): {} histories, buffers Vec / ArrayBuf<0> / ArrayBuf<4> / ArrayBuf<64>", l, (1..=l).map(|k| 15u64.pow(k as u32)).sum::<u64>())
     }
 
     fn exhaustive(tier: Tier, shard: usize, nshards: usize, f: &mut dyn FnMut(&Input) -> bool) {
         let l = tier.pick(4, 5);
         let alpha = small_alphabet();
+        // fixed long inputs for the ordinary-stack probe: one silent stretch of 120 000 bytes of each kind
+        // (noise of one value, noise of 0x1b, a partial start sequence repeated, one long frame of zeros / 0x1b /
+        // plain bytes), each followed by a small valid frame
+        let long_kinds = 7usize;
+        for k in 0..long_kinds {
+            if k % nshards != shard {
+                continue;
+            }
+            let n = 120_000usize;
+            let mut s: Vec<u8> = match k {
+                0 => vec![0xa5; n],
+                1 => vec![0x1b; n],
+                2 => [0x1b, 0x1b, 0x1b, 0x1b, 0x01, 0x01, 0x01].iter().copied().cycle().take(n).collect(),
+                3 => ref_frame(&vec![0x00; n]),
+                4 => ref_frame(&vec![0x1b; n]),
+                5 => ref_frame(&(0..n).map(|i| (i % 251) as u8 | 0x20).collect::<Vec<u8>>()),
+                _ => {
+                    let mut v = vec![0x1b, 0x1b, 0x1b, 0x1b, 0x01, 0x01, 0x01, 0x01];
+                    v.extend(std::iter::repeat(0x00).take(n));
+                    v
+                }
+            };
+            s.extend_from_slice(&ref_frame(&[0x11, 0x22, 0x33]));
+            let m = if k == 5 { vec![0x1b; 40_000] } else { vec![0xa5, 0x00] };
+            if !f(&Input { ops: vec![Op::Push(s)], cap: None, m, enc_cap: 16, alloc_fail: None }) {
+                return;
+            }
+        }
         let mut g = 0u64;
         for len in 1..=l {
             let count = 15u64.pow(len as u32);
